@@ -74,6 +74,18 @@ def items_for(ctx):
         # items that arrive after the loop has entered its execute stage
         items.append(loop_item(rng, 3, 2, ['success'] * 3, after_ms=40))
         items.append(loop_item(rng, 2, 1, ['success', 'error'], after_ms=15))
+        # the run is cancelled exactly when one item hands its slot back and the others are still queued (ForeachStep.tla:
+        # items aborted by a close): the loop must not report success with their results missing
+        for nth, ms in ([(3, 60)] if ctx.quick else [(3, 60), (3, 20), (6, 60), (3, 150)]):
+            it = loop_item(rng, 3, 1, ['success'] * 3, delays=[30, 30, 30])
+            it.pop('expect_items', None)
+            it['schedule'] = {'triggers': [{'point': 'ev:FItem', 'step': 'loop', 'nth': nth, 'action': 'cancel', 'run': 0}],
+                              'stalls': [{'point': 'ev:FItem', 'step': 'loop', 'nth': nth, 'ms': ms}]}
+            it['extra'] = {'timeout_ms': 30000, 'runs': [{'input': it['input'], 'cancel_after_ms': 5000}]}
+            it['cancel'] = True
+            it['nomeaning'] = True
+            it['at'] = 'cancel-between-items nth=%d' % nth
+            items.append(it)
         # no parallelism declared: the documented default is one item at a time
         items.append(loop_item(rng, 4, None, ['success'] * 4, delays=[12, 8, 10, 6]))
         items.append(loop_item(rng, 3, None, ['success', 'error', 'success'], delays=[10, 10, 10]))
@@ -84,7 +96,8 @@ def items_for(ctx):
 FE_CFG = '''SPECIFICATION FairSpec
 CONSTANTS N = %d
           Par = %d
-INVARIANTS WithinParallelism SemMatches SuccessOnlyIfNoneFailedOrClosed FailureOnlyIfSomeErr NoItemLostOnSuccess AtMostOneCompletion CompletionAfterClose
+          AbortedCountAsFailed = TRUE
+INVARIANTS WithinParallelism SemMatches SuccessOnlyIfAllOk SuccessOnlyIfNoneFailedOrClosed FailureOnlyIfSomeErr NoItemLostOnSuccess AtMostOneCompletion CompletionAfterClose
 PROPERTY CloseReturns
 CHECK_DEADLOCK FALSE
 '''
